@@ -60,6 +60,7 @@ type BSpec struct {
 	CRC      int      `json:"crc"`             // 0,1,2
 	Unknown  []UBlock `json:"unknown,omitempty"`
 	Spray    int      `json:"spray,omitempty"` // copies announced in a binary spray block (0: none)
+	Renumber bool     `json:"renumber,omitempty"` // the sender numbered its extension blocks in descending order (valid, unusual)
 	FragOff  int      `json:"frag_off,omitempty"`
 	FragTot  int      `json:"frag_tot,omitempty"` // >0: bundle is a fragment
 }
@@ -781,6 +782,23 @@ func (n *nodeSim) buildBundle(sp *BSpec) (bpv7.Bundle, error) {
 		b.PrimaryBlock.BundleControlFlags |= bpv7.IsFragment
 		b.PrimaryBlock.FragmentOffset = uint64(sp.FragOff)
 		b.PrimaryBlock.TotalDataLength = uint64(sp.FragTot)
+	}
+	if sp.Renumber {
+		// another implementation's numbering: the extension blocks keep their order on the wire, their numbers are reversed
+		var idx []int
+		for i := range b.CanonicalBlocks {
+			if b.CanonicalBlocks[i].BlockNumber != 1 {
+				idx = append(idx, i)
+			}
+		}
+		for l, r := 0, len(idx)-1; l < r; l, r = l+1, r-1 {
+			b.CanonicalBlocks[idx[l]].BlockNumber, b.CanonicalBlocks[idx[r]].BlockNumber = b.CanonicalBlocks[idx[r]].BlockNumber, b.CanonicalBlocks[idx[l]].BlockNumber
+		}
+		for i := range b.CanonicalBlocks {
+			if b.CanonicalBlocks[i].CRCType != bpv7.CRCNo {
+				b.CanonicalBlocks[i].SetCRCType(b.CanonicalBlocks[i].CRCType) // forget a cached CRC
+			}
+		}
 	}
 	return b, nil
 }
